@@ -7,6 +7,7 @@ cd $VERIF
 ids="$@"; [ -z "$ids" ] && ids=$(ls seeded)
 for id in $ids; do
   d=$VERIF/seeded/$id; p=${id%_*}
+  dw=$(python3 -c "import json;print(json.load(open('$d/meta.json')).get('detect_with',''))" 2>/dev/null); [ -n "$dw" ] && p=$dw      # (a change produced for one property and reported by another property's check)
   if ! git -C $REPO apply --check $d/patch.diff 2>/dev/null; then echo "$id: PATCH DOES NOT APPLY"; continue; fi
   out=$(./tools/verify_seed.sh $d $p 2>&1)
   demo=$(echo "$out" | grep "^demo"); chk=$(echo "$out" | grep "^check" | sed 's/;.*theorems/ theorems/' | cut -c1-150)
